@@ -219,10 +219,21 @@ def oracle(ctx, hints, effort):
             findings.setdefault(r[0], Finding(r[0], f"Tb under the atmosphere {atm} is not tb_up + transmittance x (Tb under a loss-free sky at tb_down)",
                                               {"kind": "composition", "scene": sc, "atm": list(atm)}, r[1], r[2]))
     n = 4 if effort == "routine" else 40
-    for i in range(n):
+    for i in range(-1, n):
         em, ms = pC01.PAIRINGS[i % (3 if effort == "routine" else len(pC01.PAIRINGS))]
         sc = const_scene(rng, em, ms, atmosphere=False)
         sc["nmax"] = int(rng.choice([16, 32]))
+        if i == -1:
+            # a thin pack over a reflector whose prescribed reflectivity depends on the angle and on the polarisation (documented: functions
+            # of theta in radians): Kirchhoff's law holds at every angle, so the weights still sum to one
+            sc = const_scene(rng, "iba", "exponential", atmosphere=False)
+            sc["thickness"] = [round(float(v), 3) for v in rng.uniform(0.1, 0.4, min(2, len(sc["thickness"])))]
+            for k_ in ("density", "temperature"):
+                sc[k_] = sc[k_][:len(sc["thickness"])]
+            sc["micro"] = {k_: (v[:len(sc["thickness"])] if isinstance(v, list) else v) for k_, v in sc.get("micro", {}).items()}
+            sc["frequency"], sc["nmax"] = 19e9, 16
+            sc["substrate"] = dict(kind="reflector", T=round(float(rng.uniform(200, 280)), 2), eps=[3.0, 0.0],
+                                   params=dict(specular_reflection={"V": {"$fn": [0.1, 0.3]}, "H": {"$fn": [0.25, 0.6]}}))
         seed = int(rng.integers(0, 2**31))
         try:
             r = check_linear(sc, seed)
